@@ -804,6 +804,11 @@ Definition c07_ok (p : pkt) (r : result) (changed : list N) (inlen outlen : N) :
   | _ => true
   end.
 
+(** compact notation for an observed output packet that differs from the input only in the
+    path meta header and the info fields (used by the runner to keep the case files small) *)
+Definition patch (p : pkt) (ci ch rsv : N) (infos : list info) : pkt :=
+  with_meta (with_infos p infos) ci ch rsv.
+
 (** * Cases of the correspondence check *)
 Inductive case :=
 | CConst (k v : N)     (* Go constant number k has value v *)
